@@ -88,6 +88,12 @@ def run(ctx):
                                 extra=["-vrf", "-epoch", "6", "-validators", "5", "-maxgroup", "3"])
     alines += al2
     asums += as2
+    # long epochs: a round that waits for its timer (a dissenting primary vote, nobody resolves it) sees the timer expire before the
+    # epoch - and with it the committee - ends
+    al3, as3 = cc.run_scenarios(ctx, [x + 500 for x in seeds[:max(3, len(seeds) // 3)]], 160 if q else 400,
+                                extra=["-validators", "5", "-maxgroup", "3", "-epoch", "16"])
+    alines += al3
+    asums += as3
     stats = {"normal": 0, "failed": 0, "epoch": 0, "suspended": 0, "disc_events": 0, "commits_accepted": 0, "commits_rejected": 0,
              "timers_seen": 0, "two_role_rounds": 0}
     last = {}
